@@ -563,6 +563,19 @@ fn c08(g: &mut Gen) {
 
 // ------------------------------------------------------------------------------------------------ C16
 fn c16(g: &mut Gen) {
+    // the three encoders that end in unimplemented!(): modelled (Encode.req_stub), tied by fidelity only (no property
+    // speaks about them)
+    {
+        let cfg = simple_cfg(0);
+        g.case("stubs", &cfg, |s, r| {
+            for id in [18u32, 19, 21] {
+                for cap in [0usize, 3, 8, 11, 12, 13, 64] {
+                    let k = r.below(3); let raw = poison(r, cap, k);
+                    let (d, a) = (r.byte() as u32, r.byte() as u32); s.op(Op::Hdr { what: 14, fld: d, raw, v: (a << 8) | id });
+                }
+            }
+        });
+    }
     wide_encode_cases(g);
     { let n = g.n(120, 5000); let k = all_keys(); hist_encode_stratum(g, n, &k, true); }
     let per = g.n(25, 1000);
@@ -1059,6 +1072,18 @@ fn c01(g: &mut Gen) {
             });
         }
     }
+    // ... and just beyond it: today these are refused (nothing to decode); an encoder that starts emitting them must
+    // still produce something its own decoder takes (round 9, F1: a 260-byte frame encoded, then rejected)
+    for total in [260usize, 261, 262, 263, 264, 270, 300, 515, 516] {
+        for key in [(true, 20u32), (false, 31), (true, 32), (false, 33)] {
+            let cfg = gen_cfg(&mut g.rng);
+            g.case("over", &cfg, |s, r| {
+                let c = gen_call(r, key, false, Some(total));
+                let buf = vec![r.cbyte(); total + 4];
+                if let Obs::Enc(Some(n), out) = s.op(enc_op(&c, buf)) { if n <= out.len() { s.op(Op::Decode(out[..n].to_vec())); } }
+            });
+        }
+    }
 }
 
 /// every answerable request on contexts whose configured lists are empty or so long that their count wraps in a u8
@@ -1225,6 +1250,15 @@ fn c12(g: &mut Gen) {
             }
         });
     }
+    // whole conversations: the library's own request encoders on one side, this context on the other
+    let n = g.n(60, 2_000);
+    for _ in 0..n {
+        let cfg = gen_cfg(&mut g.rng);
+        g.case("conversation", &cfg, |s, r| {
+            if r.chance(1, 2) { history(s, r.below(6) as usize, r); }
+            for id in 1..=8u32 { if id <= 6 || r.chance(1, 8) { conversation(s, r, id); } }
+        });
+    }
     // after random histories
     let n = g.n(300, 12_000);
     for _ in 0..n {
@@ -1241,6 +1275,22 @@ fn c12(g: &mut Gen) {
 }
 
 fn s_nvend(s: &Session) -> usize { s.nvend }
+
+/// a whole conversation through the library (coq/proofs/Conversation.v): a requester context (the scratch context)
+/// encodes request `id` with the library's own encoder, the context under test processes those bytes, and what it
+/// wrote is handed to the decoder again, as the requester would
+fn conversation(s: &mut Session, r: &mut Rng, id: u32) {
+    let mut c = gen_call(r, (true, id), false, None);
+    if id == 6 && s.nvend > 0 && r.chance(3, 4) && c.nums.len() > 1 { c.nums[1] = r.below(s.nvend as u64) as u32; }
+    if id == 1 && r.chance(3, 4) && c.nums.len() > 1 { c.nums[1] = r.below(2) as u32; }
+    let buf = vec![0u8; expected_len(&c).unwrap_or(12) + 2];
+    if let Obs::Enc(Some(n), out) = encode_obs(s.alt, true, id, &c.nums, &c.lists, &buf) {
+        let b = pbuf(r, 64, 39);
+        if let Obs::ProcOk(_, _, _, Some(m), rb) = s.op(Op::Process(out[..n].to_vec(), b)) {
+            if m <= rb.len() { s.op(Op::Decode(rb[..m].to_vec())); }
+        }
+    }
+}
 
 /// a random sequence of operations of every kind
 /// A control response as a peer would send it to this context in its requester role: data related to what the
@@ -1416,6 +1466,27 @@ fn c14(g: &mut Gen) {
                 }
             });
         }
+    }
+    // the walk with the library on both sides: requests from the library's encoder, answers through its decoder
+    for n in 1..=8usize {
+        let mut cfg = gen_cfg(&mut g.rng);
+        cfg.vendor_ids = (0..n).map(|_| ((g.rng.below(2)) as u8, g.rng.c32(), g.rng.c16())).collect();
+        g.case("conversation", &cfg, |s, r| {
+            let mut sel = 0u8;
+            for _ in 0..12 {
+                let dest = r.byte();
+                let buf = vec![0u8; 16];
+                let req = match encode_obs(s.alt, true, 6, &[dest as u32, sel as u32], &[], &buf) { Obs::Enc(Some(k), out) => out[..k].to_vec(), _ => break };
+                let b = pbuf(r, 64, 0);
+                match s.op(Op::Process(req, b)) {
+                    Obs::ProcOk(_, _, _, Some(len), out) if len >= 13 && len <= out.len() => {
+                        s.op(Op::Decode(out[..len].to_vec()));
+                        sel = out[12]; if sel == 0xFF { break; }
+                    }
+                    _ => break,
+                }
+            }
+        });
     }
     // no vendor set at all, and counts that wrap in a u8
     for n in [0usize, 255, 256, 257, 512] {
@@ -1673,6 +1744,34 @@ fn c18(g: &mut Gen) {
             g.case("values", &cfg, |s, r| {
                 let raw = r.bytes(len);
                 for v in 0..256u32 { s.op(Op::Hdr { what: 1, fld, raw: raw.clone(), v }); }
+            });
+        }
+    }
+    // views over buffers of any length (a Vec, a slice of a whole packet): the struct-sized prefix is read / rewritten,
+    // later bytes are never looked at or changed; shorter buffers too (the model says where the index panic is)
+    for fld in 0..29u32 {
+        if PRIVATE_FIELDS.contains(&fld) { continue; }
+        let len = FIELD_LEN[fld as usize];
+        let maxv: u64 = match fld { 27 => 0xFFFF, 28 => 0xFFFF_FFFF, _ => 0xFF };
+        let reps = g.n(2, 12);
+        for _ in 0..reps {
+            g.case("anylen", &cfg, |s, r| {
+                for extra in [0usize, 1, 2, 3, 4, 5, 8, 16, 60, 252] {
+                    for _ in 0..4 {
+                        let mut raw = match r.below(4) { 0 => vec![0u8; len + extra], 1 => vec![0xFFu8; len + extra], _ => r.bytes(len + extra) };
+                        if r.chance(1, 4) && extra > 0 { let k = len + r.below(extra as u64) as usize; raw[k] = r.cbyte(); }
+                        s.op(Op::Hdr { what: 12, fld, raw: raw.clone(), v: 0 });
+                        let mut be = 0u64;
+                        for x in raw.iter().take(len) { be = be << 8 | *x as u64; }
+                        let vs: [u64; 6] = [0, maxv, r.next() & maxv, r.cbyte() as u64 & maxv, be & maxv, (be ^ 1) & maxv];
+                        s.op(Op::Hdr { what: 13, fld, raw, v: vs[r.below(6) as usize] as u32 });
+                    }
+                }
+                for short in 0..len {
+                    let raw = r.bytes(short);
+                    s.op(Op::Hdr { what: 12, fld, raw: raw.clone(), v: 0 });
+                    s.op(Op::Hdr { what: 13, fld, raw, v: (r.next() & maxv) as u32 });
+                }
             });
         }
     }
